@@ -4,7 +4,10 @@ pub mod c02;
 pub mod c03;
 pub mod c04;
 pub mod c05;
+pub mod c06;
+pub mod renderutil;
 pub mod c11;
+pub mod c13;
 pub mod c16;
 pub mod c17;
 pub mod c18;
@@ -18,7 +21,9 @@ pub fn lookup(id: &str) -> Option<&'static dyn Prop> {
         "C03" => &c03::C03,
         "C04" => &c04::C04,
         "C05" => &c05::C05,
+        "C06" => &c06::C06,
         "C11" => &c11::C11,
+        "C13" => &c13::C13,
         "C16" => &c16::C16,
         "C17" => &c17::C17,
         "C18" => &c18::C18,
